@@ -301,7 +301,8 @@ func (k *c37) check(o *stepObs) {
 		x.fail(o.step, name+":element-lost", "%s: lost %v; %s\n%s", c, idsPre(pre, d.removed), d, o.ctx())
 		return
 	}
-	for m, ch := range d.changed {
+	for _, m := range d.keys() {
+		ch := d.changed[m]
 		if (c.kind == opSetLabel || c.kind == opSetAttr) && m == c.elem {
 			if bad := only(ch, allowedSetCells(c.cell)); len(bad) > 0 {
 				x.fail(o.step, "set:"+cellClass(c.cell)+":other-cell-of-target-changed:"+cellClass(bad[0]), "%s: also changed %v of the same element\n%s", c, bad, o.ctx())
@@ -367,7 +368,8 @@ func (k *c37) check(o *stepObs) {
 				return
 			}
 		}
-		for m, ch := range di.changed {
+		for _, m := range di.keys() {
+			ch := di.changed[m]
 			if pi.els[m].edge {
 				continue // connections of an inheriting board are renumbered by edits of the base: not compared
 			}
@@ -496,7 +498,7 @@ func (k *c38) check(o *stepObs) {
 			x.label("delete-obj:container")
 		}
 		rem := setOf(d.removed)
-		for m := range want {
+		for _, m := range sortedKeys(want) {
 			if !rem[m] {
 				what := "target"
 				if m != T.m {
@@ -529,7 +531,8 @@ func (k *c38) check(o *stepObs) {
 			x.fail(o.step, "delete-obj:"+what+"-lost"+suffix, "%s: %s (%s) is gone too; %s\n%s", c, m, e.absID, d, o.ctx())
 			return
 		}
-		for m, ch := range d.changed {
+		for _, m := range d.keys() {
+		ch := d.changed[m]
 			e := pre.els[m]
 			var allowed func(string) bool
 			switch {
@@ -551,7 +554,7 @@ func (k *c38) check(o *stepObs) {
 			case !e.edge && pre.under(m, T.m):
 				allowed = func(a string) bool { return a == "@absid" }
 			case e.edge && (pre.under(e.src, T.m) || pre.under(e.dst, T.m)):
-				allowed = func(a string) bool { return a == "@absid" }
+				allowed = func(a string) bool { return a == "@absid" || a == "@index" }
 			default:
 				allowed = func(string) bool { return false }
 			}
@@ -569,7 +572,7 @@ func (k *c38) check(o *stepObs) {
 			}
 		}
 		// every kept child is a child of the former parent
-		for m := range kids {
+		for _, m := range sortedKeys(kids) {
 			if pe, ok := post.els[m]; ok && pe.parent != T.parent {
 				x.fail(o.step, "delete-obj:child-not-moved-to-parent"+suffix, "%s: child %s now lives under %q\n%s", c, m, pe.parent, o.ctx())
 				return
@@ -584,7 +587,8 @@ func (k *c38) check(o *stepObs) {
 			x.fail(o.step, sig+suffix, "%s: removed %v, want exactly %s; %s\n%s", c, idsPre(pre, d.removed), T.m, d, o.ctx())
 			return
 		}
-		for m, ch := range d.changed {
+		for _, m := range d.keys() {
+		ch := d.changed[m]
 			e := pre.els[m]
 			later := e.edge && groupOf(e.absID) == groupOf(T.absID) && e.index > T.index
 			if later {
@@ -621,7 +625,8 @@ func (k *c38) check(o *stepObs) {
 				return
 			}
 		}
-		for m, ch := range d.changed {
+		for _, m := range d.keys() {
+		ch := d.changed[m]
 			if bad := only(ch, func(a string) bool { return m == T.m && a == c.cell }); len(bad) > 0 {
 				what := "other-element-changed"
 				if m == T.m {
@@ -752,7 +757,8 @@ func (k *c39) check(o *stepObs) {
 		return
 	}
 	kids := setOf(pre.children(T.m))
-	for m, ch := range d.changed {
+	for _, m := range d.keys() {
+		ch := d.changed[m]
 		e := pre.els[m]
 		var allowed func(string) bool
 		switch {
@@ -777,7 +783,11 @@ func (k *c39) check(o *stepObs) {
 		case !e.edge && pre.under(m, T.m):
 			allowed = func(a string) bool { return a == "@absid" }
 		case e.edge && (pre.under(e.src, T.m) || pre.under(e.dst, T.m)):
-			allowed = func(a string) bool { return a == "@absid" }
+			// the ID of an attached connection changes with its ends; parallel ones may swap their order
+			allowed = func(a string) bool { return a == "@absid" || a == "@index" }
+			if post.els[m].index != e.index {
+				x.label("gray:parallel-connections-reordered")
+			}
 		default:
 			allowed = func(string) bool { return false }
 		}
@@ -800,7 +810,7 @@ func (k *c39) check(o *stepObs) {
 		}
 	}
 	if cross && !c.inclDesc {
-		for m := range kids {
+		for _, m := range sortedKeys(kids) {
 			if post.els[m].parent != T.parent {
 				x.fail(o.step, name+":child-moved-along", "%s: child %s still lives under %q although descendants were not included\n%s", c, m, post.els[m].parent, o.ctx())
 				return
@@ -808,7 +818,7 @@ func (k *c39) check(o *stepObs) {
 		}
 	}
 	if cross && c.inclDesc {
-		for m := range kids {
+		for _, m := range sortedKeys(kids) {
 			if post.els[m].parent != T.m {
 				x.fail(o.step, name+":child-left-behind", "%s: child %s lives under %q although descendants were included\n%s", c, m, post.els[m].parent, o.ctx())
 				return
